@@ -14,6 +14,7 @@ def run(tier, seed):
     c.assumptions.append('the reference semantics (ref/front.py, ref/sem.py) is an executable reading of docs/features.md and the property statements; where these are silent it answers "unspecified" and the case is skipped (counted as oracle_silent)')
     c.run_family('compose', ts, ('exit', 'stdout', 'stderr-empty', 'panic', 'hang'), compose.role, par_templates=8, par_paths=2)
     rs = randprog.templates(tier, seed)
+    for t in rs: t['max_dec'] = 7
     c.bounds['random_programs'] = '%d generated programs of 8-20 statements over the whole feature set (kind-tracking grammar, VERIF_SEED), integer / boolean leaves symbolic' % len(rs)
     c.run_family('random-programs', rs, ('exit', 'stdout', 'stderr-empty', 'panic', 'hang'), randprog.role, par_templates=8, par_paths=2, timeout=300)
     return c.finish()
